@@ -11,7 +11,7 @@ THEOREMS = [P + n for n in (
     "ingest_of_capture", "session_of_items", "file_of_frames", "export_of_session",
     "tls12_file_exact", "tls13_file_exact", "exact_frames_parse",
     "dissect_seg", "capOk_of_described", "flow_filter", "dirSegs_flow", "roles_of_flow", "capture_read",
-    "described_session", "tls12_capture_exact", "tls13_capture_exact")]
+    "described_session", "tls12_capture_exact", "tls13_capture_exact", "Ex.tls12_file_instance")]
 # lemmas the theorems rest on (audited with them: same import closure)
 LEMMAS = ["TLX.Lemmas.DissectAddr.dissect_addr_lengths", "TLX.Lemmas.Export.itemsWith_good",
           "TLX.Lemmas.Export.runItems_good", "TLX.Lemmas.Export.framesFrom_wf"]
